@@ -161,3 +161,27 @@ def count(name, lines, ib, stats, meta):
             else:
                 stats['distinct'].add(('quiet', b.kv.get('enum', '').split('@')[0], b.kv.get('empty'), b.kv.get('allc')))
 EXPLORE = dict(skip_ops=('set_map', 'set_sess', 'set_enum', 'band_set'), ops=('flow', 'tick', 'adv', 'st_add', 'st_complete', 'st_remove', 'st_clear', 'band_hello', 'band_choose', 'band_update', 'band_do_hello', 'map_charge', 'map_touch'), mtu=False, oracle=False, num={'adv': {1: (0, 70000)}})
+
+def extra_checks(tier, seed):
+    """premise of the pacing theorem: the tick-private time stamp of the last Hello (`LastHelloTxMs`) is written by the
+    tick alone.  Re-established from the sources on every run: in the daemons the field may only have its address taken
+    for the tick port (`.last_hello_tx_ms = &...->LastHelloTxMs`); in the core only automata_tick stores through it."""
+    import re, os
+    fails = []; seen = []
+    for root, _, files in os.walk(os.path.join(V.REPO, 'os')):
+        for f in files:
+            if not f.endswith(('.c', '.m', '.cpp')): continue
+            p = os.path.join(root, f)
+            try: txt = open(p, errors='replace').read()
+            except OSError: continue
+            for m in re.finditer(r'[^\n]*LastHelloTxMs[^\n]*', txt):
+                line = m.group(0).strip(); seen.append(os.path.relpath(p, V.REPO))
+                if not re.search(r'\.last_hello_tx_ms\s*=\s*&[^;,]*LastHelloTxMs', line) and not line.lstrip().startswith(('//', '*', '/*')):
+                    fails.append('premise of C12 (pacing) no longer re-established: %s touches LastHelloTxMs other than by handing its address to the tick port: "%s"' % (os.path.relpath(p, V.REPO), line[:160]))
+    core = open(os.path.join(V.REPO, 'lltdResponder/lltdAutomata.c'), errors='replace').read()
+    stores = re.findall(r'\*\s*port->last_hello_tx_ms\s*=[^=]', core)
+    tick = re.search(r'\nvoid automata_tick\(.*?\n}\n', core, re.S)
+    in_tick = len(re.findall(r'\*\s*port->last_hello_tx_ms\s*=[^=]', tick.group(0))) if tick else 0
+    if len(stores) != in_tick:
+        fails.append('premise of C12 (pacing): the last-Hello time stamp is stored through the tick port outside automata_tick (%d stores, %d of them in the tick)' % (len(stores), in_tick))
+    return {'failures': fails[:4], 'found_input': False, 'premise': {'daemon_files_naming_the_field': sorted(set(seen)), 'stores_in_core': len(stores), 'stores_in_tick': in_tick}}
